@@ -1,6 +1,6 @@
 from .. import facts
 from ..common import Report, finish
-from ..rules import carry, c06, c15, gate, complete
+from ..rules import carry, c06, c15, gate, complete, docpanic
 from .. import flow, mir
 
 RULE = ("(gate) the `is_some` flag of checked_add / checked_sub on Limb, Uint and BoxedUint depends on both operands; "
@@ -37,6 +37,7 @@ def run(tier, t0):
                      "modular::" not in (b.get("impl_self") or "") + b["id"], "c04.complete",
                      "operations_checked_for_completeness", what="addition / subtraction / negation",
                      skip_param=lambda b, p, ty, nm: ty in ("bool",))
+        docpanic.run(f, rep, cfg, lambda b: c15.family(b.get("name")) in ("add", "sub", "neg"), "c04.docpanic")
         c15.run_modes(f, rep, cfg, prefix="c04.mode", families={"add", "sub", "neg"}, counter="add_sub_operator_forwarders")
         c06.run_zip(f, rep, cfg, eng, scope=_arith_scope, prefix="c04.zip", counter="mixed_width_arithmetic_bodies",
                     require_eq=True, what="arithmetic routine")
@@ -49,6 +50,7 @@ def run(tier, t0):
     rep.floor("checked_add_sub_operations", 8)
     rep.floor("add_sub_operator_forwarders", 15)
     rep.floor("operations_checked_for_completeness", 100)
+    rep.floor("documented_panics", 1)
     rep.floor("zip_call_bodies_positive_control", 3)
     return finish(rep, tier, t0,
                   explanation="one structural clause of C04 (and of the multi-limb parts of C03/C07): a carry that is computed "
